@@ -66,10 +66,18 @@ func (tc *tCase) in() map[string]any {
 		"shape":  tc.Shape,
 		"tree0":  encNode(tc.Tree0),
 		"target": encNode(tc.Target),
-		"mode":   map[string]any{"exdev": tc.Mode.Exdev, "owner": tc.Mode.Owner, "missing": strs(miss)},
+		"mode":   map[string]any{"exdev": tc.Mode.Exdev, "owner": tc.Mode.Owner, "missing": paths(miss)},
 		"edits":  edits,
 		"fault":  map[string]any{"kind": tc.Fault.Kind, "index": tc.Fault.Index},
 	}
+}
+
+func paths(s []string) []any {
+	out := make([]any, 0, len(s))
+	for _, x := range s {
+		out = append(out, strs(vtree.Path(x)))
+	}
+	return out
 }
 
 func strs(s []string) []any {
@@ -85,7 +93,15 @@ func caseFromIn(in map[string]any) *tCase {
 	tc.Shape, _ = in["shape"].(string)
 	tc.Tree0 = decNode(in["tree0"])
 	tc.Target = decNode(in["target"])
-	vlib.Decode(in["mode"], &tc.Mode)
+	if m, ok := in["mode"].(map[string]any); ok {
+		tc.Mode.Exdev, _ = m["exdev"].(bool)
+		tc.Mode.Owner, _ = m["owner"].(bool)
+		var miss [][]string
+		vlib.Decode(m["missing"], &miss)
+		for _, p := range miss {
+			tc.Mode.Missing = append(tc.Mode.Missing, strings.Join(p, "/"))
+		}
+	}
 	vlib.Decode(in["edits"], &tc.Edits)
 	vlib.Decode(in["fault"], &tc.Fault)
 	return tc
